@@ -1162,6 +1162,11 @@ func (c *Cluster) gcProxySessions(activeNodes []string) {
 // For example, a remote node is restarted or the cluster is rehashed without the node.
 func (c *Cluster) gcProxySessionsForNode(node string) {
 	n := c.nodes[node]
+	if n == nil {
+		// This node itself: the leader's list of active nodes may not include the node which receives it
+		// (the leader had declared it failed and has not yet noticed the recovery).
+		return
+	}
 	n.lock.Lock()
 	msess := n.msess
 	n.msess = make(map[string]struct{})
